@@ -34,4 +34,33 @@ structure GridOK (times : List Rat) (rate bin window : Rat) (T : List Int) (B : 
   binGrid : rate * bin = ((B : Int) : Rat)
   binPos : 1 ≤ B
 
+/-- the lag events of the statement: for every pair a before b, `(label a, label b, ⌊(t_b − t_a) / bin⌋)` — ONE floor
+per spike pair -/
+def stmtEvents (times : List Rat) (sc : List Int) (bin : Rat) : List (Int × Int × Int) :=
+  (pairs times.length).map fun p =>
+    (sc.getD p.1 0, sc.getD p.2 0, ((times.getD p.2 0 - times.getD p.1 0) / bin).floor)
+
+/-- `specSeconds` as the driver evaluates it (one floor per pair instead of one per pair and entry): entry (i, j, k) is
+the number of lag events equal to `(ids[i], ids[j], k)`.  `stmtSeconds_eq` (Props/C15.lean): the same array as
+`specSeconds`, for all inputs. -/
+def stmtSeconds (times : List Rat) (sc : List Int) (ids : List Nat) (bin : Rat) (half : Nat) :
+    List (List (List Nat)) :=
+  let ev := stmtEvents times sc bin
+  (List.range ids.length).map fun i => (List.range ids.length).map fun j =>
+    (List.range (half + 1)).map fun (k : Nat) =>
+      ev.count (Int.ofNat (ids.getD i 0), Int.ofNat (ids.getD j 0), Int.ofNat k)
+
+/-- `GridOK` without its clause on the bin: spike times on the sample grid, bin and window inside the clipping
+interval, the bin at least one sample long after truncation — `rate · bin` may be ANY rational ≥ 1
+(`correlogramsQ_truncates`: what the code counts then) -/
+structure TimesOK (times : List Rat) (rate bin window : Rat) (T : List Int) : Prop where
+  rate_pos : 0 < rate
+  bin_lo : clipLo ≤ bin
+  bin_hi : bin ≤ clipHi
+  win_lo : clipLo ≤ window
+  win_hi : window ≤ clipHi
+  len : T.length = times.length
+  onGrid : ∀ a, a < times.length → times.getD a 0 * rate = ((T.getD a 0 : Int) : Rat)
+  binPos : 1 ≤ (rate * bin).floor
+
 end PhyVerif.C15
